@@ -3,6 +3,7 @@ package lint
 import (
 	"fmt"
 	"go/token"
+	"go/types"
 	"sort"
 	"strings"
 
@@ -454,8 +455,8 @@ func DumpAtomicity(p *Program, prefixes ...string) {
 
 // FailureAtomicity: in the given packages, no method with an error result changes state reachable
 // from its receiver (map update / delete on a field's map, store to a receiver field) and can still
-// fail afterwards — a rejected operation leaves no trace. `allowed` lists functions (glob on the
-// function name → reason) where a write before a fallible step is part of the design. control is a
+// fail afterwards — a rejected operation leaves no trace. `allowed` lists fields (
+// written field "Struct.field" → reason) where a write before a fallible step is part of the design. control is a
 // package where such writes are known to exist on the pinned tree: the detector must find them on
 // every run, otherwise the zero in the other packages means nothing.
 func (c *Ctx) FailureAtomicity(rule string, pkgs []string, allowed map[string]string, control string, minControl int) {
@@ -474,15 +475,8 @@ func (c *Ctx) FailureAtomicity(rule string, pkgs []string, allowed map[string]st
 				c.Touch(f)
 			}
 
-			why := ""
-
-			for g, r := range allowed {
-				if Glob(g, FuncName(f)) {
-					why = r
-				}
-			}
-
 			for _, in := range Find(f, p.sharedWrite(f)) {
+				why := allowed[writtenField(in)]
 				this := func(i ssa.Instruction) bool { return i == in }
 
 				found, path := p.Reach(After(f, this), ReturnsNonNil(nr-1), CutSpec{})
@@ -532,4 +526,114 @@ func (c *Ctx) FailureAtomicity(rule string, pkgs []string, allowed map[string]st
 
 	n := sites(control, false)
 	c.Check(n >= minControl, rule, "positive control: the detector finds the known write-then-fail sites of "+control, token.NoPos, fmt.Sprintf("%d sites", n), fmt.Sprintf("only %d sites found, expected >= %d: the detector no longer sees such writes", n, minControl))
+}
+
+// ---------- loop-carried state census ----------
+
+// carriedPhis lists the joins at loop headers of f that carry a non-integer value from one iteration
+// into the next (accumulators, cached objects, reused buffers), described by type.
+func carriedPhis(f *ssa.Function) []*ssa.Phi {
+	var out []*ssa.Phi
+
+	for _, b := range f.Blocks {
+		isHeader := false
+
+		for _, pr := range b.Preds {
+			if dominates(b, pr) {
+				isHeader = true
+			}
+		}
+
+		if !isHeader {
+			continue
+		}
+
+		for _, in := range b.Instrs {
+			ph, ok := in.(*ssa.Phi)
+			if !ok {
+				break
+			}
+
+			if bt, ok := ph.Type().Underlying().(*types.Basic); ok && bt.Info()&(types.IsInteger|types.IsBoolean) != 0 {
+				continue
+			}
+
+			// carried: some back-edge operand differs from the phi itself and from the entry operand
+			carried := false
+
+			for i, pr := range b.Preds {
+				if dominates(b, pr) && ph.Edges[i] != ssa.Value(ph) {
+					carried = true
+				}
+			}
+
+			if carried {
+				out = append(out, ph)
+			}
+		}
+	}
+
+	return out
+}
+
+// DumpCarried prints the loop-carried census.
+func DumpCarried(p *Program, prefixes ...string) {
+	var rels []string
+
+	for path := range p.SSAPkg {
+		rel := strings.TrimPrefix(path, Mod)
+		for _, pre := range prefixes {
+			if strings.HasPrefix(rel, pre) && !strings.Contains(rel, "conformance") {
+				rels = append(rels, rel)
+			}
+		}
+	}
+
+	sort.Strings(rels)
+
+	for _, rel := range rels {
+		for _, f := range p.PkgFuncs(rel) {
+			for _, ph := range carriedPhis(f) {
+				fmt.Printf("%s :: %s %s @%s\n", FuncName(f), ph.Comment, types.TypeString(ph.Type(), func(pk *types.Package) string { return pk.Name() }), p.Pos(ph.Pos()))
+			}
+		}
+	}
+}
+
+// writtenField names the struct field a shared write goes to ("Struct.field"): the stored field, or the
+// field holding the map that is updated.
+func writtenField(in ssa.Instruction) string {
+	fieldOfAddr := func(v ssa.Value) string {
+		switch x := v.(type) {
+		case *ssa.FieldAddr:
+			sn, fn := FieldOf(x.X, x.Field)
+
+			return sn + "." + fn
+		case *ssa.UnOp:
+			if fa, ok := x.X.(*ssa.FieldAddr); ok {
+				sn, fn := FieldOf(fa.X, fa.Field)
+
+				return sn + "." + fn
+			}
+		case *ssa.Field:
+			sn, fn := FieldOf(x.X, x.Field)
+
+			return sn + "." + fn
+		}
+
+		return ""
+	}
+
+	switch x := in.(type) {
+	case *ssa.Store:
+		return fieldOfAddr(x.Addr)
+	case *ssa.MapUpdate:
+		return fieldOfAddr(x.Map)
+	case *ssa.Call:
+		if len(x.Call.Args) > 0 {
+			return fieldOfAddr(x.Call.Args[0])
+		}
+	}
+
+	return ""
 }
